@@ -278,3 +278,216 @@ func fileOf(p *packages.Package, pos token.Pos) *ast.File {
 	}
 	return nil
 }
+
+// aliasDef resolves a use of a single-assignment local to the expression it
+// was defined with: `rest := str[start:]; .. f(rest)` reads as f(str[start:]).
+// Conditions: the variable has exactly one assignment in root (its `:=`
+// definition with one right-hand side), the definition precedes the use, both
+// lie in the same innermost loop body (so the definition is re-evaluated
+// whenever the use is), and no variable mentioned by the definition is assigned
+// between the two. Returns nil when e is not such a use.
+func aliasDef(info *types.Info, root ast.Node, e ast.Expr) ast.Expr {
+	id, ok := ast.Unparen(e).(*ast.Ident)
+	if !ok {
+		return nil
+	}
+	o, _ := info.Uses[id].(*types.Var)
+	if o == nil || o.IsField() {
+		return nil
+	}
+	var def *ast.AssignStmt
+	var rhs ast.Expr
+	n := 0
+	ast.Inspect(root, func(x ast.Node) bool {
+		switch t := x.(type) {
+		case *ast.AssignStmt:
+			for i, l := range t.Lhs {
+				if identObj(info, l) == o {
+					n++
+					if t.Tok == token.DEFINE && len(t.Lhs) == len(t.Rhs) {
+						def, rhs = t, t.Rhs[i]
+					}
+				}
+			}
+		case *ast.IncDecStmt:
+			if identObj(info, t.X) == o {
+				n++
+			}
+		case *ast.RangeStmt:
+			if identObj(info, t.Key) == o || identObj(info, t.Value) == o {
+				n++
+			}
+		case *ast.UnaryExpr:
+			if t.Op == token.AND && identObj(info, t.X) == o {
+				n += 2
+			}
+		}
+		return true
+	})
+	if n != 1 || def == nil || def.Pos() >= id.Pos() {
+		return nil
+	}
+	if innermostLoop(root, def.Pos()) != innermostLoop(root, id.Pos()) {
+		return nil
+	}
+	// operands unchanged between definition and use
+	ops := map[types.Object]bool{}
+	fields := map[string]bool{}
+	bad := false
+	ast.Inspect(rhs, func(x ast.Node) bool {
+		switch t := x.(type) {
+		case *ast.Ident:
+			if v, ok := info.Uses[t].(*types.Var); ok && !v.IsField() {
+				ops[v] = true
+			}
+		case *ast.SelectorExpr:
+			if fv := fieldVar(info, t); fv != nil {
+				fields[fv.Name()] = true
+			}
+		case *ast.CallExpr:
+			if nme := calleeName(info, t); nme != "builtin.len" && nme != "builtin.cap" && !isConversion(info, t) {
+				bad = true
+			}
+		}
+		return true
+	})
+	if bad {
+		return nil
+	}
+	ast.Inspect(root, func(x ast.Node) bool {
+		if x == nil || x.Pos() <= def.Pos() || x.Pos() >= id.Pos() {
+			return true
+		}
+		switch t := x.(type) {
+		case *ast.AssignStmt:
+			for _, l := range t.Lhs {
+				if ops[identObj(info, l)] {
+					bad = true
+				}
+				if fv := fieldVar(info, l); fv != nil && fields[fv.Name()] {
+					bad = true
+				}
+			}
+		case *ast.IncDecStmt:
+			if ops[identObj(info, t.X)] {
+				bad = true
+			}
+			if fv := fieldVar(info, t.X); fv != nil && fields[fv.Name()] {
+				bad = true
+			}
+		case *ast.CallExpr:
+			if within(t, id.Pos()) {
+				return true // the use is an operand of this call: evaluated before the call runs
+			}
+			if len(fields) > 0 && !isConversion(info, t) {
+				if nme := calleeName(info, t); nme != "builtin.len" && nme != "builtin.cap" {
+					bad = true // a call may re-bind the fields the definition reads
+				}
+			}
+		}
+		return true
+	})
+	if bad {
+		return nil
+	}
+	return rhs
+}
+
+// innermostLoop returns the innermost for/range statement of root whose body
+// contains pos (nil when none).
+func innermostLoop(root ast.Node, pos token.Pos) ast.Node {
+	var best ast.Node
+	ast.Inspect(root, func(x ast.Node) bool {
+		var body *ast.BlockStmt
+		switch t := x.(type) {
+		case *ast.ForStmt:
+			body = t.Body
+		case *ast.RangeStmt:
+			body = t.Body
+		}
+		if body != nil && within(body, pos) {
+			best = x
+		}
+		return true
+	})
+	return best
+}
+
+// unalias follows aliasDef until e is no longer an aliased local (at most 4 steps).
+func unalias(info *types.Info, root ast.Node, e ast.Expr) ast.Expr {
+	for i := 0; i < 4; i++ {
+		d := aliasDef(info, root, e)
+		if d == nil {
+			break
+		}
+		e = d
+	}
+	return ast.Unparen(e)
+}
+
+// inlineAliases rewrites e with every aliased single-assignment local (see
+// aliasDef) replaced by its definition; parentheses are added where the
+// definition binds less tightly than its new context. Returns e itself when
+// nothing was replaced.
+func inlineAliases(info *types.Info, root ast.Node, e ast.Expr) ast.Expr {
+	changed := false
+	var rw func(e ast.Expr, depth int) ast.Expr
+	prec := func(e ast.Expr) int {
+		if be, ok := e.(*ast.BinaryExpr); ok {
+			return be.Op.Precedence()
+		}
+		return 10
+	}
+	rw = func(e ast.Expr, depth int) ast.Expr {
+		if e == nil || depth > 6 {
+			return e
+		}
+		switch t := e.(type) {
+		case *ast.Ident:
+			if d := aliasDef(info, root, t); d != nil {
+				changed = true
+				return rw(ast.Unparen(d), depth+1)
+			}
+			return t
+		case *ast.ParenExpr:
+			return &ast.ParenExpr{X: rw(t.X, depth)}
+		case *ast.BinaryExpr:
+			x, y := rw(t.X, depth), rw(t.Y, depth)
+			if prec(x) < t.Op.Precedence() {
+				x = &ast.ParenExpr{X: x}
+			}
+			if prec(y) <= t.Op.Precedence() {
+				if _, isBin := y.(*ast.BinaryExpr); isBin {
+					y = &ast.ParenExpr{X: y}
+				}
+			}
+			return &ast.BinaryExpr{X: x, Op: t.Op, Y: y}
+		case *ast.UnaryExpr:
+			x := rw(t.X, depth)
+			if _, isBin := x.(*ast.BinaryExpr); isBin {
+				x = &ast.ParenExpr{X: x}
+			}
+			return &ast.UnaryExpr{Op: t.Op, X: x}
+		case *ast.IndexExpr:
+			return &ast.IndexExpr{X: rw(t.X, depth), Index: rw(t.Index, depth)}
+		case *ast.SliceExpr:
+			return &ast.SliceExpr{X: rw(t.X, depth), Low: rw(t.Low, depth), High: rw(t.High, depth), Max: rw(t.Max, depth), Slice3: t.Slice3}
+		case *ast.CallExpr:
+			args := make([]ast.Expr, len(t.Args))
+			for i, a := range t.Args {
+				args[i] = rw(a, depth)
+			}
+			return &ast.CallExpr{Fun: t.Fun, Args: args, Ellipsis: t.Ellipsis}
+		case *ast.SelectorExpr:
+			return &ast.SelectorExpr{X: rw(t.X, depth), Sel: t.Sel}
+		case *ast.StarExpr:
+			return &ast.StarExpr{X: rw(t.X, depth)}
+		}
+		return e
+	}
+	out := rw(e, 0)
+	if !changed {
+		return e
+	}
+	return out
+}
